@@ -452,7 +452,7 @@ def obligations(tier):
     for mod in ("c06", "c08"):
         m = importlib.import_module(f"vt.props.{mod}")
         for ob in m.obligations(tier):
-            if type(ob) is not GOb or ob.raises is not None or "n_iter_max=0" in ob.name or "zero budget" in ob.name or ":initialize_" in ob.function:
+            if type(ob) is not GOb or ob.raises is not None or "n_iter_max=0" in ob.name or "zero budget" in ob.name or ":initialize_" in ob.function or ob.instance.get("order", 0) >= 4:
                 continue  # (whole-function zero-budget call sites are not loop cuts: random_state cannot be injected there)
             try:
                 f = resolve(ob.function)
